@@ -439,10 +439,19 @@ static int run_scenario(std::vector<std::string>& lines)
       g_pcap_exit = 0; g_pcap_repeat = 0;
       bool ok = in->drv->init(p);
       if (!ok) { fprintf(OUT, "initfail %d\n", in->idx); if (!path.empty()) unlink(path.c_str()); continue; }
+      std::function<bool()> quiet_now;      // set below, once the driver runs
       auto send_all = [&](bool paced) {
         int s = socket(AF_INET, SOCK_DGRAM, 0);
+        int prev_port = -1;
         for (auto& d : in->dgrams)
         {
+          // the order of datagrams sent to different sockets is only defined if the earlier one has been consumed
+          if (paced && prev_port != -1 && prev_port != d.first && quiet_now)
+          {
+            std::this_thread::sleep_for(std::chrono::milliseconds(5));
+            for (int k = 0; k < 1000 && !quiet_now(); k++) std::this_thread::sleep_for(std::chrono::milliseconds(1));
+          }
+          prev_port = d.first;
           struct sockaddr_in a; memset(&a, 0, sizeof a); a.sin_family = AF_INET; a.sin_port = htons((uint16_t)d.first); a.sin_addr.s_addr = htonl(INADDR_LOOPBACK);
           static const uint8_t none = 0;
           sendto(s, d.second.empty() ? &none : d.second.data(), d.second.size(), 0, (struct sockaddr*)&a, sizeof a);
@@ -462,6 +471,7 @@ static int run_scenario(std::vector<std::string>& lines)
         }
         return true;
       };
+      quiet_now = drained;
       if (in->in_mode == 2 || in->in_mode == 4)
       {
         if (in->in_mode == 2) send_all(true);
